@@ -1652,6 +1652,38 @@ func rewrittenTogether(b, a subjSnap) bool {
 	return true
 }
 
+// keptTogether: every DID of the subject got exactly one more version, all earlier versions are as they were, a document the operation alters shows exactly
+// the altered content and every other document what it showed before.
+func keptTogether(o op, pl plan, b, a subjSnap) bool {
+	if !b.Listed || !a.Listed || b.Exists != a.Exists || len(b.DIDs) != len(a.DIDs) {
+		return false
+	}
+	for i := range a.DIDs {
+		bd, ad := b.DIDs[i], a.DIDs[i]
+		if bd.DID != ad.DID || len(ad.Versions) != len(bd.Versions)+1 || !reflect.DeepEqual(bd.Hashes, ad.Hashes[:len(bd.Hashes)]) {
+			return false
+		}
+		if pl.required[ad.Method] {
+			if effect(o, &bd, ad) != "" {
+				return false
+			}
+		} else if !sameDocument(bd, ad) {
+			return false
+		}
+	}
+	return true
+}
+
+var keptOnce sync.Once
+
+// keptWitness keeps the first such observation in the evidence.
+func (p *pass) keptWitness(o op, phase string, b, a subjSnap) {
+	keptOnce.Do(func() {
+		p.r.Extra("first_operation_leaving_the_network_document_unchanged_kept_without_publish", map[string]any{"sequence": p.seqIdx, "configuration": p.cfg.Name,
+			"operations": p.seq, "site": p.s.Name, "operation": o, "phase": phase, "versions_before": versionsOf(b), "versions_after": versionsOf(a)})
+	})
+}
+
 // compare decides one operation outcome. tookEffect says what the caller/ledger observed: the operation succeeded, or it was
 // cut short after the network method had published. Returns false when the property was violated.
 func (p *pass) compare(o op, pl plan, phase, class string, tookEffect bool, pre, post *snapshot) bool {
@@ -1691,6 +1723,14 @@ func (p *pass) compare(o op, pl plan, phase, class string, tookEffect bool, pre,
 				// version numbers may have moved (together) when the sweep finds the "new" document on the network already
 				p.r.Unspecified("unchanged-document-written-again-kept-after-" + class)
 				p.count("rewrites_of_unchanged_documents_kept_without_publish", 1)
+			} else if pl.changed["nuts"] && !pl.required["nuts"] && keptTogether(o, pl, b, a) {
+				// the same mechanism with documents that differ (after the migration the did:web document lacks the services): the operation alters the
+				// did:web document and writes the did:nuts document again as it is. The network shows the "new" did:nuts document already, so "published"
+				// has no event of its own and the sweep keeps the transaction - every DID shows exactly what the operation asked for, together. Whether
+				// that counts as "publishing failed / not yet published" the statement does not say; anything but all-together stays a violation.
+				p.r.Unspecified("operation-that-leaves-the-network-document-unchanged-kept-after-" + class)
+				p.count("operations_leaving_the_network_document_unchanged_kept_without_publish", 1)
+				p.keptWitness(o, phase, b, a)
 			} else {
 				key := "C13/not-rolled-back/" + o.Kind + "/after-" + class
 				what := "the operation did not (or must not) take effect but the subject does not show its previous state after the sweep"
